@@ -260,3 +260,11 @@ PROPS.update({
         "rule": "one case per (shape, data, layout) pair against the canonical C-order array; non-trivial = a non-canonical layout with at least 2 elements",
     },
 })
+
+# functions whose contracts a property's proof relies on without the property being *about* them: a failure there is
+# reported by the property that owns the contract (C15 for partition_mut, C02 for selection) and leaves this one undecided
+SORT_FNS = ["partition_mut", "get_from_sorted_mut", "get_many_from_sorted_mut", "get_many_from_sorted_mut_unchecked", "_get_many_from_sorted_mut_unchecked"]
+PROPS["C02"]["dependency_fns"] = ["partition_mut"]
+PROPS["C18"]["dependency_fns"] = ["partition_mut"]
+PROPS["C01"]["dependency_fns"] = SORT_FNS
+PROPS["C19"]["dependency_fns"] = SORT_FNS
